@@ -88,22 +88,17 @@ Proof.
   - intros [H1 H2]. apply Hc; assumption.
 Qed.
 
-Lemma wedge_a_zero : wedge_a g tth 0 <> 0.
-Proof.
-  unfold wedge_a. rewrite cos_0, sin_0. destruct (half_angle tth Ht) as (_ & C & Hs & _). rewrite C. nra.
-Qed.
-
 Lemma wedge_members : forall w, In w (fst (laue_find_omega_wedge g tth 0)) <-> good w.
 Proof.
-  intros w. assert (Hcw : cos 0 <> 0) by (rewrite cos_0; lra). pose proof wedge_a_zero as Ha.
+  intros w. assert (Hcw : cos 0 <> 0) by (rewrite cos_0; lra).
   unfold good. rewrite <- wedge_zero. split.
   - intros Hin. destruct (laue_find_omega_wedge g tth 0) as [oms etas] eqn:E. cbn [fst] in Hin.
     destruct (laue_find_omega_wedge_sound g tth 0 oms etas Ht Hg Hcw E) as [Hempty Htwo]. cbv zeta in Hempty, Htwo.
     destruct (Rlt_dec 1 (Rabs (wedge_coseta g tth 0))) as [L|L].
     + destruct (Hempty L) as [-> _]. destruct Hin.
-    + destruct (Htwo ltac:(lra) Ha) as (w1 & w2 & -> & _ & D1 & D2 & R1 & R2).
+    + destruct (Htwo ltac:(lra)) as (w1 & w2 & -> & _ & D1 & D2 & R1 & R2).
       destruct Hin as [<-|[<-|[]]]; (split; [assumption|]); [unfold diffracts in D1; fold gn in D1; rewrite D1 | unfold diffracts in D2; fold gn in D2; rewrite D2]; reflexivity.
-  - intros [H1 H2]. exact (proj2 (laue_find_omega_wedge_complete g tth 0 w Ht Hg Hcw Ha H1 H2)).
+  - intros [H1 H2]. exact (proj2 (laue_find_omega_wedge_complete g tth 0 w Ht Hg Hcw H1 H2)).
 Qed.
 
 Theorem zero_tilt_agreement oms1 etas1 oms2 etas2 :
